@@ -27,9 +27,11 @@ def costExtrapolate (w : List Nat) (n : Nat) : Nat → List Nat
     else w
 
 /-- one observed cost `c` of `wcet::Curve::from_trace`: `window` = last `max_n` costs,
-oldest first (already including `c`); running totals are taken oldest-first (sic). -/
+oldest first (already including `c`); running totals are taken from the most recent
+observation backwards, so `total` after `i + 1` terms is the cost of the run of `i + 1`
+consecutive jobs that ends at the current job. -/
 def costTraceUpdate (costOf : List Nat) (window : List Nat) : List Nat :=
-  go costOf window 0
+  go costOf window.reverse 0
 where go : List Nat → List Nat → Nat → List Nat
   | cs, [], _ => cs
   | [], k :: ks, tot => (tot + k) :: go [] ks (tot + k)
